@@ -543,7 +543,7 @@ def main_check(pid, tier, seed, replay_path=None):
     with open(os.path.join(ev_root, "evidence", "%s.json" % pid), "w") as f:
         json.dump(evidence, f, indent=1, default=str)
     if harness:
-        print("HARNESS-ERROR property=%s (%d worker problems); first:\n%s" % (pid, len(harness), harness[0][-3000:]))
+        print("HARNESS-ERROR property=%s (%d worker problems); first:\n%s" % (pid, len(harness), harness[0] if len(harness[0]) <= 4000 else harness[0][:2000] + "\n  [...]\n" + harness[0][-2000:]))
         return 2 if rc == 0 else rc
     print("%s %s seed=%d: %d cases, %d distinct non-trivial, %d pipeline runs, %d known-finding signatures, "
           "%d new; %.1fs" % (pid, tier, seed, cov["evaluations"], cov["distinct_nontrivial"], cov["pipeline_runs"],
